@@ -186,14 +186,32 @@ def doc_value(case, pos):
     return sum(c["coeff"] * geom(case, c, pos)[0] for c in case["comps"])
 
 
-def doc_fj(case, pos):
+def T_at(case, t):
+    """temperature in force at step t (it may be changed between steps)"""
+    T = case["T"]
+    for s in case["steps"][:t + 1]:
+        if "T" in s:
+            T = s["T"]
+    return T
+
+
+def sub_at(case, t):
+    sub = case["sub"]
+    for s in case["steps"][:t + 1]:
+        if "subset" in s:
+            sub = s["subset"]
+    return sub
+
+
+def doc_fj(case, pos, T=None):
     """the documented Jacobian force: kT * sum_i c_i jd_i / sum_i c_i^2"""
-    if case["T"] == 0.0:
+    T = case["T"] if T is None else T
+    if T == 0.0:
         return 0.0
     s = 0.0
     for c in case["comps"]:
         s += geom(case, c, pos)[1] * c["coeff"] / sqnorm(case)
-    return s * (BOLTZ * case["T"])
+    return s * (BOLTZ * T)
 
 
 def regular(case, pos):
@@ -338,6 +356,10 @@ def scenario(case, k):
                 L += ["config EOF"] + bias_block(case) + ["EOF"]
             else:
                 L.append("script cv bias b delete")
+        if "T" in s:
+            L.append("temperature %r" % s["T"])          # the engine changes its target temperature between two steps
+        if "subset" in s:
+            L.append("script cv colvar v set subtract_applied_force_from_total_force %d" % (1 if s["subset"] else 0))
         for i, p in enumerate(s["pos"]):
             L.append("pos %d %s %s %s" % (i + 1, hx(p[0]), hx(p[1]), hx(p[2])))
         ef = s["ef"]
@@ -490,6 +512,7 @@ def model_line(case, isteps):
         p.append(vl(step_eforce(case, isteps, t)))
         p.append(hx(bias_force(case, isteps[t]["cv"].get("v", float("nan"))) if applies(case, t) else 0.0))
         p.append("1" if applies(case, t) else "0")
+        p += [hx(BOLTZ * T_at(case, t)), "1" if case["hide"] else "0", "1" if sub_at(case, t) else "0"]
         for ci in rot_indices(case):
             p.append(rot_txt(isteps[t].get("rot", {}).get(ci, [1.0, 0.0, 0.0, 0.0, 0.0, 0]), True))
     return " ".join(p)
@@ -616,7 +639,7 @@ def inverse_ok(case):
 
 
 def gen_case(r, idx, typ=None, kinds=None):
-    typ = typ or r.choice(["INV", "INV", "LIN", "LOC", "TIM", "RND", "OFF"])
+    typ = typ or r.choice(["INV", "INV", "LIN", "LOC", "TIM", "RND", "OFF", "PAR"])
     ncomp = 1 if r.random() < 0.7 else 2
     kinds = kinds or [r.choice(KINDS) for _ in range(ncomp)]
     overlap = typ == "RND" and r.random() < 0.3
@@ -706,6 +729,29 @@ def gen_case(r, idx, typ=None, kinds=None):
         E = [field() for _ in range(4)]
         steps = [{"pos": P[0], "ef": E[0]}, {"pos": P[1], "ef": E[1]}, {"pos": P[0], "ef": E[0]},
                  {"pos": P[2], "ef": E[2]}, {"pos": P[3], "ef": E[3]}]
+    elif typ == "PAR":
+        # parameters change during the run: target temperature (positive -> 0 -> positive) by the engine, subtractAppliedForce
+        # by script; the atoms get exactly Colvars' forces so that the inverse oracle applies at every step
+        if case["bias"]["type"] == "none":
+            case["bias"] = {"type": "linear", "k": 2.0}
+        if not case["same"]:
+            case["inc"] = 1
+        temps = r.choice([[300.0, None, 0.0, None, 512.0, None, 0.0], [0.0, None, None, 300.0, None, 0.0, None], [512.0, 0.0, 300.0, 0.0, 512.0, None, None]])
+        case["T"] = temps[0]
+        k_sub = r.randint(2, 5) if (not case["same"] and r.random() < 0.6) else None
+        steps = []
+        for i in range(7):
+            st = {"pos": P[i % 4], "ef": (zero if not case["same"] else field())}
+            if i > 0 and temps[i] is not None:
+                st["T"] = temps[i]
+            if k_sub is not None and i == k_sub:
+                st["subset"] = not case["sub"]
+            steps.append(st)
+        if case["same"]:
+            # same-step: every second step hands the forces applied at the previous one back
+            for i in range(1, 7, 2):
+                steps[i]["pos"] = steps[i - 1]["pos"]
+                steps[i]["ef"] = {"back": 1.0}
     elif typ == "OFF":
         # the bias applies its force at some steps only (apply_force switched off and on again while the variable stays
         # active and measured): the applied force is zero between non-zero ones
@@ -837,6 +883,10 @@ def delivered_is_own(case, t):
     return None
 
 
+def typ_par(case):
+    return case.get("type") == "PAR"
+
+
 def oracle(case, isteps):
     out = []
     kd = kinds_of(case)
@@ -855,16 +905,21 @@ def oracle(case, isteps):
             s0 = delivered_is_own(case, t)
             if s0 is None:
                 continue
-            fj = doc_fj(case, case["steps"][s0]["pos"])
+            fj = doc_fj(case, case["steps"][s0]["pos"], T_at(case, s0))      # Jacobian term of the step reported, at its temperature
             f = afs[s0]
+            sub_t = sub_at(case, t)
             if case["same"]:
+                # same step: the Jacobian term is that of the step of the report (same geometry), at its temperature
+                fj = doc_fj(case, case["steps"][t]["pos"], T_at(case, t))
                 exp = f + (0.0 if case["hide"] else fj)
             else:
                 comp = case["hide"] and applies(case, s0)
-                exp = f + (fj if not (case["hide"] and (case["sub"] or not comp)) else 0.0) - (f if case["sub"] else 0.0)
+                exp = f + (fj if not (case["hide"] and (sub_t or not comp)) else 0.0) - (f if sub_t else 0.0)
             if not close(tfs[t], exp, 1e-8):
-                tag = "hidden" if case["hide"] else ("T0" if case["T"] == 0 else "jacobian")
-                out.append(("inverse:%s:%s:%s%s" % (kd, mode, tag, ":subtract" if case["sub"] else ""),
+                tag = "hidden" if case["hide"] else ("T0" if T_at(case, s0) == 0 else "jacobian")
+                if typ_par(case):
+                    tag += ":parameter-change"
+                out.append(("inverse:%s:%s:%s%s" % (kd, mode, tag, ":subtract" if sub_t else ""),
                             "step %d: the atoms experienced exactly the forces applied for the variable force %r; reported total force %r, "
                             "expected %r (applied force %s documented Jacobian term %r%s)" % (
                                 t, f, tfs[t], exp, "without the hidden" if case["hide"] else "plus the", fj,
@@ -1038,7 +1093,7 @@ def process(run, runner, cases, sample=0):
             run.mismatch("config:%s" % kd, {"case": c}, [cs["config"]] + [s["err"] for s in cs["steps"]], "accepted, all steps ok")
             continue
         isteps = cs["steps"]
-        nontriv = c.get("invok", False) and any(delivered_is_own(c, t) is not None for t in range(len(isteps))) or c["type"] in ("LIN", "LOC", "TIM", "ZERO", "ROT", "OFF", "DIV")
+        nontriv = c.get("invok", False) and any(delivered_is_own(c, t) is not None for t in range(len(isteps))) or c["type"] in ("LIN", "LOC", "TIM", "ZERO", "ROT", "OFF", "DIV", "PAR")
         run.count(json.dumps(c, sort_keys=True), bool(nontriv) and any(s["tf"].get("v") not in (None, 0.0) for s in isteps))
         for sig, text in oracle(c, isteps):
             run.violation(sig, text, rp)
@@ -1166,6 +1221,12 @@ def check(run):
             while c is None or c["same"] or c.get("offmode") != want:
                 c = gen_case(r, 0, "OFF", [kind])
             c["sub"] = sub
+            first.append(c)
+    for kind in ("distance", "gyration", "angle", "distanceXY"):       # temperature / subtractAppliedForce changed mid-run
+        for same in (0, 1):
+            c = None
+            while c is None or c["same"] != same or c["hide"]:
+                c = gen_case(r, 0, "PAR", [kind])
             first.append(c)
     for rep in range(1 if quick else 12):                 # Jacobian derivative = divergence of the inverse gradient field
         for kind in KINDS:
